@@ -1,7 +1,6 @@
 package checks
 
 import (
-	"encoding/hex"
 	"errors"
 	"fmt"
 	"os"
@@ -171,6 +170,9 @@ func bombCases() [][]byte {
 			out = append(out, []byte("*1\r\n*1\r\n"+pfx+n+"\r\n"))
 		}
 	}
+	// maximal nesting that fits into 1 MiB of input: the parser recurses once per level
+	out = append(out, []byte(strings.Repeat("*1\r\n", 262144)))
+	out = append(out, []byte(strings.Repeat("*1\r\n", 262143)+"$3\r\nabc\r\n"))
 	return out
 }
 
@@ -180,8 +182,15 @@ func runBomb(input []byte, limit string) (ok bool, detail string) {
 	busy.Store(false)
 	defer busy.Store(true)
 	exe, _ := os.Executable()
+	f, err := os.CreateTemp("", "verif-bomb-*")
+	if err != nil {
+		return false, "harness: " + err.Error()
+	}
+	defer os.Remove(f.Name())
+	f.Write(input)
+	f.Close()
 	cmd := exec.Command("prlimit", "--as="+limit, "timeout", "20", exe, "-test.run", "^TestBombChild$")
-	cmd.Env = append(os.Environ(), "VERIF_BOMB="+hex.EncodeToString(input), "VERIF_PROP=")
+	cmd.Env = append(os.Environ(), "VERIF_BOMB_FILE="+f.Name(), "VERIF_PROP=")
 	out, err := cmd.CombinedOutput()
 	if err == nil {
 		return true, ""
@@ -199,12 +208,13 @@ func runBomb(input []byte, limit string) (ok bool, detail string) {
 	if errors.As(err, &ee) {
 		return false, fmt.Sprintf("exit %d: %s", ee.ExitCode(), s)
 	}
-	return false, err.Error()
+	// the subprocess could not even be started: harness trouble, never a verdict
+	return false, "harness: " + err.Error()
 }
 
 // BombChild is the subprocess body: parse the input to the end, any return is fine.
 func BombChild() {
-	in, _ := hex.DecodeString(os.Getenv("VERIF_BOMB"))
+	in, _ := os.ReadFile(os.Getenv("VERIF_BOMB_FILE"))
 	p := proto.NewParserWithBytes(in)
 	for i := 0; i < 1000; i++ {
 		m, err := p.Next()
@@ -224,6 +234,10 @@ func runC06(t *testing.T, tape *sim.Tape, tier string) *Outcome {
 			ok, det := runBomb(b, bombLimit)
 			o.stat("bomb_subprocesses", 1)
 			o.Evals++
+			if !ok && strings.HasPrefix(det, "harness: ") {
+				o.violate("harness:bomb-subprocess", "%s", det)
+				continue
+			}
 			if !ok {
 				kind := "crash"
 				if strings.Contains(det, "out of memory") || strings.Contains(det, "exit 137") {
@@ -231,7 +245,7 @@ func runC06(t *testing.T, tape *sim.Tape, tier string) *Outcome {
 				} else if strings.Contains(det, "exit 124") {
 					kind = "timeout"
 				}
-				o.violate("c06:bomb:"+kind+":"+string(b[:1])+bombClass(b), "input %q aborts the process under a %s-byte address-space limit: %s", b, bombLimit, det)
+				o.violate("c06:bomb:"+kind+":"+string(b[:1])+bombClass(b), "input %q (%d bytes) aborts the process under a %s-byte address-space limit: %s", clip(b, 60), len(b), bombLimit, det)
 			}
 		}
 	}
@@ -250,7 +264,9 @@ func runC06(t *testing.T, tape *sim.Tape, tier string) *Outcome {
 			ok, det := runBomb(bad, bombLimit)
 			o.stat("bomb_subprocesses", 1)
 			o.Evals++
-			if !ok {
+			if !ok && strings.HasPrefix(det, "harness: ") {
+				o.violate("harness:bomb-subprocess", "%s", det)
+			} else if !ok {
 				o.violate("c06:bomb:generated", "input %q (%s) aborts the process under a %s-byte address-space limit: %s", clip(bad, 120), desc, bombLimit, det)
 			}
 		} else {
@@ -290,6 +306,8 @@ func bombClass(b []byte) string {
 	switch {
 	case strings.HasPrefix(string(b), "*2"):
 		return ":as-argument"
+	case len(b) > 100000:
+		return ":deep-nesting"
 	case strings.HasPrefix(string(b), "*1\r\n*1"):
 		return ":nested"
 	}
